@@ -14,6 +14,7 @@
   os.ReadDir / filepath.Walk order and HTTP are modelled-not-verified.
 -/
 import Cpf.Rules.Bundle
+import Cpf.Rules.RuleFile
 import Cpf.Lemmas.JsonDoc
 import Cpf.Generated.Tables
 
@@ -155,6 +156,31 @@ theorem C20_keys :
     (∀ k ∈ bundleConsumerTop, ("[]CQLFileContent:" ++ k) ∈ bundleProducerTop) ∧
     (∀ k ∈ bundleConsumerFile, ("string:" ++ k) ∈ bundleProducerFile) ∧
     bundleConsumerTop = ["files"] ∧ bundleConsumerFile = ["content"] := by decide
+
+/-! ### where the bundle is written and where it is asked for -/
+
+theorem hasPrefix_append (p s : List Char) : Cpf.Go.Str.hasPrefix (p ++ s) p = true := by
+  induction p with
+  | nil => cases s <;> rfl
+  | cons c cs ih => simp [Cpf.Go.Str.hasPrefix, ih]
+
+/-- `strings.TrimPrefix(prefix + name, prefix) = name` for every name — also one that begins with letters of the
+    prefix (`cpf/cpp`, `cpf/python`, `cpf/cpf/x`) -/
+theorem C20_trim_prefix (p name : List Char) : Cpf.Rules.trimPrefix (p ++ name) p = name := by
+  unfold Cpf.Rules.trimPrefix
+  rw [hasPrefix_append]
+  simp
+
+/-- Regenerated: the producer writes the bundle of directory `d` to `…/rules/<base name of d>.json`; the consumer
+    strips the provider prefix with `strings.TrimPrefix` (the function `C20_trim_prefix` is about) and asks for
+    `…/rules/<name>.json`: `ci --ruleset cpf/<d>` asks for the file the bundler wrote for `<d>`, whatever `<d>` is. -/
+theorem C20_path_and_url :
+    bundleProducerPath = ["jsonFileName := filepath.Base(path) + \".json\"",
+                          "jsonFilePath := filepath.Join(\"..\", \"..\", \"docs\", \"public\", \"rules\", jsonFileName)"] ∧
+    bundleConsumerUrl = ["ruleset = strings.TrimPrefix(ruleset, \"cpf/\")",
+                         "url := \"https://codepathfinder.dev/rules/\" + ruleset + \".json\""] := by decide
+
+example : Cpf.Rules.trimPrefix "cpf/cpp".toList "cpf/".toList = "cpp".toList := by decide
 
 /-- Regenerated: the bytes `json.MarshalIndent` returns are the bytes written, and the bytes read from the
     response are the bytes decoded — nothing rewrites them in between (the model's `produce` / `consume`
